@@ -127,7 +127,7 @@ struct DecOut {
 /// Read the decoder to the end with destination sizes `dsts` (cyclic).
 fn decode_run(text: &[u8], chunks: &[usize], cyclic: bool, dsts: &[usize]) -> DecOut {
     let mut dec = Base64Decoder::new(ChunkReader::new(text, chunks, cyclic));
-    let cap = dsts.iter().copied().max().unwrap_or(1).max(1);
+    let cap = dsts.iter().copied().filter(|d| *d < VECTORED).max().unwrap_or(1).max(1);
     let mut buf = vec![0xAAu8; cap];
     let mut out = DecOut { bytes: Vec::with_capacity(text.len()), end: End::Eof, contract: vec![] };
     let max_iters = 4 * text.len() + 64;
@@ -139,6 +139,40 @@ fn decode_run(text: &[u8], chunks: &[usize], cyclic: bool, dsts: &[usize]) -> De
         }
         let d = dsts[i % dsts.len()];
         i += 1;
+        if d == REST {
+            // the rest through `read_to_end` (a method of `Read` an implementation may provide itself)
+            match dec.read_to_end(&mut out.bytes) {
+                Ok(_) => break,
+                Err(e) => {
+                    out.end = End::Error(e.to_string());
+                    return out;
+                }
+            }
+        }
+        if d == VECTORED {
+            // one `read_vectored` call with buffers of 2 and 3 bytes
+            let (mut a, mut b) = ([0xAAu8; 2], [0xAAu8; 3]);
+            let r = {
+                let mut bufs = [std::io::IoSliceMut::new(&mut a), std::io::IoSliceMut::new(&mut b)];
+                dec.read_vectored(&mut bufs)
+            };
+            match r {
+                Ok(0) => break,
+                Ok(n) if n > 5 => {
+                    out.contract.push(("overlong", format!("read_vectored returned {n} for buffers of 2 + 3 bytes")));
+                    return out;
+                }
+                Ok(n) => {
+                    out.bytes.extend_from_slice(&a[..n.min(2)]);
+                    out.bytes.extend_from_slice(&b[..n.saturating_sub(2)]);
+                }
+                Err(e) => {
+                    out.end = End::Error(e.to_string());
+                    return out;
+                }
+            }
+            continue;
+        }
         match dec.read(&mut buf[..d]) {
             Ok(0) if d > 0 => break,
             Ok(0) => continue,
@@ -270,7 +304,15 @@ const CYCLIC: &[&[usize]] = &[
     // schedules with interrupted reads (0)
     &[1, 0], &[2, 0], &[3, 0, 1], &[0, 4], &[1, 0, 0, 1], &[2, 0, 2, 0, 64],
 ];
-const DSTS: &[&[usize]] = &[&[1], &[2], &[3], &[4], &[5], &[63], &[64], &[65], &[1000], &[0, 3], &[1, 64], &[2, 1000, 1]];
+/// destination "size" meaning: read everything that is left with `read_to_end`
+const REST: usize = usize::MAX;
+/// destination "size" meaning: one `read_vectored` call with buffers of 2 and 3 bytes
+const VECTORED: usize = usize::MAX - 1;
+const DSTS: &[&[usize]] = &[
+    &[1], &[2], &[3], &[4], &[5], &[63], &[64], &[65], &[1000], &[0, 3], &[1, 64], &[2, 1000, 1],
+    // other methods of `Read`, from the start and after ordinary reads have consumed part of the stream
+    &[REST], &[1, REST], &[2, REST], &[3, REST], &[47, REST], &[1, 1, 64, REST], &[VECTORED], &[1, VECTORED], &[VECTORED, REST],
+];
 
 pub fn run(ctx: &Ctx) -> Result<Report, String> {
     // reference self-check
@@ -595,7 +637,7 @@ pub fn run(ctx: &Ctx) -> Result<Report, String> {
     let d1b = AtomicU64::new(0);
     let long_lens: Vec<usize> = [255usize, 256, 257, 1023, 1024, 1025, 4095, 4096, 4097, 49_151, 49_152, 49_153, 65_535, 65_536, 65_537].to_vec();
     let big_chunks: &[&[usize]] = &[&[1], &[63], &[64], &[1000], &[4096], &[100_000]];
-    let big_dsts: &[&[usize]] = &[&[3], &[64], &[1000], &[4096], &[100_000]];
+    let big_dsts: &[&[usize]] = &[&[3], &[64], &[1000], &[4096], &[100_000], &[REST], &[5, REST], &[5000, REST]];
     long_lens.par_iter().for_each(|n| {
         let data = content(*n);
         let text = b64::encode(&data);
@@ -622,7 +664,7 @@ pub fn run(ctx: &Ctx) -> Result<Report, String> {
 
     // ---- D4: length not a multiple of four must be an error ---------------------------------
     let d4 = AtomicU64::new(0);
-    let mal_dsts: &[&[usize]] = &[&[1], &[3], &[64], &[1000]];
+    let mal_dsts: &[&[usize]] = &[&[1], &[3], &[64], &[1000], &[REST], &[2, REST]];
     (0..=200usize).into_par_iter().for_each(|n| {
         let data = content(n);
         let full = b64::encode(&data);
